@@ -19,6 +19,7 @@ It is FALSE of the real code in two regions, proved below as counterexamples:
 -/
 import SquidModel.Dns.Roundtrip
 import SquidModel.Dns.Counter
+import SquidModel.Dns.Text
 
 namespace SquidModel.C37
 open SquidModel.Dns SquidModel.Gen.DnsLimits
@@ -78,6 +79,14 @@ theorem unpack_encodes_partial (buf : Bytes) (m : Msg) (h : EncMsg buf m) :
       if m.hdr.rcode ≠ 0 then .ret (-(m.hdr.rcode : Int)) (some { m with answers := [] })
       else .ret (m.answers.length : Int) (some m) :=
   messageUnpack_enc h
+
+/-- The decoded text determines the name: for labels without '.' and NUL (host names), splitting the C string the
+decoder stored at the dots gives back exactly the labels that were encoded — so two encodings that decode to the same
+text encode the same name, and "equal as text" in the theorems above means "equal as names". -/
+theorem decoded_text_determines_labels (labels : List Bytes)
+    (h : ∀ l ∈ labels, l ≠ [] ∧ ∀ c ∈ l, c ≠ 46 ∧ c ≠ 0) :
+    tokens (cstr (nameOut labels)) = labels :=
+  tokens_cstr_nameOut labels h
 
 /-- the encoding relation does not depend on what follows (authority/additional sections, padding) -/
 theorem encoding_ignores_trailing_octets (buf x : Bytes) (d off e : Nat) (labels : List Bytes)
